@@ -68,6 +68,8 @@ DataCommMode verif_logged_get_data_mode(size_t sel, size_t tot) {
   return m;
 }
 #include "e4_common.h"
+#include <ctime>
+#include <unistd.h>
 #define get_data_mode verif_logged_get_data_mode
 #include "galois/graphs/GluonSubstrate.h"
 #undef get_data_mode
@@ -561,6 +563,7 @@ int main(int argc, char** argv) {
     fprintf(stderr, "usage: c18_gluon SESSION RESULT [threads]\n");
     return 2;
   }
+  e4::redirect_output(argv[2]);
   galois::DistMemSys G;
   galois::setActiveThreads(argc > 3 ? atoi(argv[3]) : 1);
   auto& net = galois::runtime::getSystemNetworkInterface();
@@ -577,19 +580,22 @@ int main(int argc, char** argv) {
       MPI_Abort(MPI_COMM_WORLD, 2);
     }
   }
-  fprintf(stderr, "E4-RANK %d: %zu cases in %s\n", comm.rank, cases.size(),
-          argv[1]);
+  fprintf(stderr, "E4-RANK %d: pid %d t=%ld %zu cases in %s\n", comm.rank,
+          (int)getpid(), (long)time(nullptr), cases.size(), argv[1]);
   for (auto& c : cases) {
     if (comm.rank == 0)
       e4::emit_begin(out, c.id);
     comm.barrier();
     // position of every rank, for the diagnosis of a stalled session
-    fprintf(stderr, "E4-RANK %d: in case %ld\n", comm.rank, c.id);
+    fprintf(stderr, "E4-RANK %d: pid %d t=%ld in case %ld\n", comm.rank,
+            (int)getpid(), (long)time(nullptr), c.id);
     run_case(c, comm, out);
   }
-  fprintf(stderr, "E4-RANK %d: all cases done, final barrier\n", comm.rank);
+  fprintf(stderr, "E4-RANK %d: pid %d t=%ld all cases done, final barrier\n",
+          comm.rank, (int)getpid(), (long)time(nullptr));
   comm.barrier();
-  fprintf(stderr, "E4-RANK %d: leaving main\n", comm.rank);
+  fprintf(stderr, "E4-RANK %d: pid %d t=%ld leaving main\n", comm.rank,
+          (int)getpid(), (long)time(nullptr));
   if (comm.rank == 0) {
     fprintf(out, "{\"done\":true}\n");
     fclose(out);
